@@ -446,7 +446,9 @@ void MEDDLY::saturation_set_mtrel<EOP, ATYPE>::saturate_1(int L,
     //
     // Copy A to C, saturating children as we go
     //
-    unpacked_node* Au = unpacked_node::New(resF, SPARSE_ONLY);
+    // Full, not sparse: for distance functions in multi-terminal
+    // forests, the transparent value 0 is a reachable state.
+    unpacked_node* Au = unpacked_node::New(resF, FULL_ONLY);
     const int Alevel = resF->getNodeLevel(A);
     if (Alevel < L) {
         edge_value zero;
@@ -465,11 +467,10 @@ void MEDDLY::saturation_set_mtrel<EOP, ATYPE>::saturate_1(int L,
     out << "\n";
 #endif
 
-    for (unsigned z = 0; z<Au->getSize(); z++) {
+    for (unsigned i = 0; i<Au->getSize(); i++) {
         node_handle cdp;
         edge_value cdv;
-        saturate_1(L-1, edgeval(Au, z), Au->down(z), cdv, cdp);
-        const unsigned i = Au->index(z);
+        saturate_1(L-1, edgeval(Au, i), Au->down(i), cdv, cdp);
         Cu->setFull(i, cdv, cdp);
     }
 
